@@ -73,6 +73,9 @@ class Layout:
             elif not self.plain and rng.random() < 0.1:
                 out.append("")
             out += pre_lines
+            if pre_lines and not self.plain and rng.random() < 0.25:
+                out.append("")  # blank line(s) between a preceding doc block and its statement
+                self.features.add("blank_after_predoc")
             text = s.text
             # optional `;` joining of two short plain statements
             joined = False
